@@ -412,6 +412,13 @@ func checkLedger(prop, tier string) *Report {
 		})
 		rep.Extra["partial_wirings"] = len(wirings)
 	}
+	if prop == "C01" {
+		// "in every reachable state" includes the states of the PROCESS after a delivery was cut off by its gas limit (the one failure
+		// that aborts the transaction instead of being acknowledged): every gas-charging point of four payload shapes is an abort
+		// point; the delivery after the abort must be what it is on an instance that never saw one (engine: c03GasAborts; seed C01i
+		// left a flag behind that sent every later orbiter packet to the plain ICS-20 credit)
+		c03GasAborts(rep, worlds, false)
+	}
 	rep.Counters["transitions"] += rep.Counters["probe_transitions"]
 	rep.Guard(rep.Outcomes["success-ack"] > 0 && rep.Outcomes["error-ack"] > 0, "outcome classes missing: %v", rep.Outcomes)
 	rep.Guard(rep.Counters["states"] >= 50, "too few states: %d", rep.Counters["states"])
